@@ -23,6 +23,10 @@ META = {
                    "is visited once per register: the loop iterates a set, or a sorted and dedup-ed vector; (C01.e) no fail-closed branch "
                    "compares own secret values (labels, keys, MACs) without a message component being involved - such an abort can "
                    "be taken by an all-honest run; "
+                   "(C01.f) register-machine discipline of every instruction walk: stores into a register-indexed table go to inst.out, "
+                   "the Xor / And arms read each table they update at both operand registers (Not: at its operand), for Xor / Not the stored "
+                   "value is computed from those reads, and no operand read of a table follows the store into it within one iteration "
+                   "(the output register may be one of the operands); "
                    "(C01.c) no literal is used as a party index (peer of a channel operation, xor_key, index into per-party vectors). "
                    "These are necessary conditions for all parties staying in step for every circuit, role assignment and batch count; "
                    "functional correctness of garbling/evaluation is value-level and not decided.",
@@ -306,6 +310,7 @@ def run(ctx, res):
     # ------------------------------------------------------------------ (d) accumulate once per register
     accumulate_once(fg, res)
     spontaneous_aborts(S, fg, res)
+    operand_discipline(S, ws, res)
     # ------------------------------------------------------------------ (c) literal party indices
     n_idx = 0
     bad = 0
@@ -533,3 +538,164 @@ def spontaneous_aborts(S, fg, res):
     res.count("fail_closed_comparisons_of_secret_values", n)
     if not bad:
         res.ok("C01.e", "engine", "", "%d fail-closed comparisons of secret-typed values in the protocol walkers: each involves a message component (an abort needs a deviating peer)" % n)
+
+
+def _operand_of(b, inst_l, o, depth=0):
+    """classify a register index operand of a walker: ('out',) for `inst.out`, (variant, k) for the k-th
+    operand of `inst.op as Variant`, or None - following plain copies / casts / `.0` of the Reg"""
+    if o is None or o["k"] == "const" or depth > 12:
+        return None
+    pl = o["p"]
+    if pl["l"] == inst_l and pl["pr"]:
+        names = [e.get("n") for e in pl["pr"] if isinstance(e, dict) and "n" in e]
+        dcs = [e.get("dc") for e in pl["pr"] if isinstance(e, dict) and "dc" in e]
+        if names and names[0] == "out":
+            return ("out",)
+        if names and names[0] == "op" and dcs and len(names) >= 3:
+            try:
+                return (dcs[0], int(names[2]))
+            except ValueError:
+                return None
+        return None
+    d = defs_of(b, pl["l"])
+    if len(d) == 1 and d[0][1] != "t":
+        r = d[0][2]
+        if r["k"] in ("use", "cast") and r.get("o"):
+            return _operand_of(b, inst_l, r["o"], depth + 1)
+    return None
+
+
+ARITY = {"Xor": 2, "And": 2, "Not": 1, "Input": 0}
+
+
+def operand_discipline(S, ws, res):
+    """C01.f: in every loop that walks circ.insts with a switch on the Op variant, the register-indexed
+    tables (Vec<_> indexed through garble_lang's `Index<Reg>`) obey the register-machine discipline that
+    makes the walk correct for every circuit, register reuse included:
+      f.write   every store into a register table inside the walk goes to `inst.out`;
+      f.reads   an arm for Xor / And reads each table it (or the code after the match) writes at *both*
+                operands, an arm for Not at its operand;
+      f.dep     for Xor / Not the value stored at `inst.out` is computed from those reads;
+      f.order   no operand read of a table follows the store into the same table within one iteration
+                (`out` may be the same register as an operand)."""
+    fg = S.fg
+    n_w = 0
+    n_arm = 0
+    for (k, b, bi, tm, lp) in ws:
+        h, body = lp
+        # the instruction local
+        inst_l = None
+        for s in b.blocks[bi]["s"]:
+            if s["k"] == "assign" and s["r"]["k"] == "discr" and s["r"]["p"].get("ty", "").lstrip("&") == OP_TY:
+                inst_l = s["r"]["p"]["l"]
+        if inst_l is None:
+            continue
+        fn = b.owner.rsplit("::", 1)[-1]
+        line = fl(b.blocks[bi]["t"]["sp"]).rsplit(":", 1)[-1]
+        reads, writes = [], []      # (block, table root, class, term)
+        for cbi in body:
+            t = b.blocks[cbi]["t"]
+            if t["k"] != "call" or len(t.get("args") or []) < 2:
+                continue
+            fnr = (t["f"].get("fn") or {}) if t["f"]["k"] == "const" else {}
+            targs = fnr.get("targs") or []
+            d = fnr.get("def", "")
+            if len(t["args"]) == 2 and len(targs) >= 2 and targs[1] == REG and d.endswith("IndexMut::index_mut"):
+                writes.append((cbi, root_local(b, t["args"][0]), _operand_of(b, inst_l, t["args"][1]), t))
+                continue
+            # a read of table T at an operand: `T[x]`, `T.get(x.0 as usize)`, or a helper that is handed the
+            # table together with the operand register
+            clss = [c for c in (_operand_of(b, inst_l, a) for a in t["args"]) if c and c != ("out",)]
+            if not clss:
+                continue
+            for a in t["args"]:
+                if a["k"] != "const" and _operand_of(b, inst_l, a) is None and ("Vec<" in a["p"]["ty"] or "[" in a["p"]["ty"]):
+                    for c in clss:
+                        reads.append((cbi, root_local(b, a), c, t))
+        if not writes:
+            continue
+        n_w += 1
+        for (wbi, tbl, cls, t) in writes:
+            nm = b.locals[tbl]["name"] if tbl is not None else "?"
+            if cls != ("out",):
+                res.bad("C01.f", "%s@%s|%s|write" % (fn, line, nm), "a store into the register table `%s` inside the instruction walk is not addressed by `inst.out` (%s): the walk no longer implements the register machine" % (nm, cls), where(b, wbi),
+                        key="C01.f|%s|%s|write" % (fn, nm))
+        explicit = {int(v_) for v_, _tb in b.blocks[bi]["t"]["ts"]}
+        missing_v = [v_ for v_ in OPS if v_ not in explicit]
+        if len(missing_v) == 1 and b.blocks[b.blocks[bi]["t"]["else"]]["t"]["k"] != "unreachable":
+            explicit.add(missing_v[0])     # an exhaustive match may lower its last variant to `otherwise`
+        for v, name in OPS.items():
+            ar = ARITY[name]
+            if not ar or v not in explicit:
+                continue                   # variants that share the fall-through edge are not told apart here
+            reach = {x for x in b.reachable_from(tm[v], frozenset([h])) if x in body}
+            wr = [(wbi, tbl, t) for (wbi, tbl, cls, t) in writes if wbi in reach and cls == ("out",)]
+            for tbl in dict.fromkeys(x[1] for x in wr):
+                n_arm += 1
+                nm = b.locals[tbl]["name"] if tbl is not None else "?"
+                inst = "%s@%s|%s|%s" % (fn, line, name, nm)
+                kbase = "C01.f|%s|%s|%s" % (fn, name, nm)
+                got = {}
+                for (rbi, rt, cls, t) in reads:
+                    if rt == tbl and rbi in reach and cls and cls[0] == name:
+                        got.setdefault(cls[1], []).append((rbi, t))
+                missing = [i for i in range(ar) if i not in got]
+                if missing:
+                    res.bad("C01.f", inst, "the %s arm stores into `%s[inst.out]` but never reads `%s` at operand %s of the instruction: the result cannot depend on that operand (wrong register read)" % (name, nm, nm, "/".join("xy"[i] for i in missing)), where(b, tm[v]),
+                            key=kbase + "|reads")
+                    continue
+                # f.order: no operand read of this table after a store into it, within the iteration
+                late = []
+                for (wbi, wt, t) in wr:
+                    if wt != tbl:
+                        continue
+                    after = {x for x in b.reachable_from(t["t"], frozenset([h])) if x in body} if t.get("t") is not None else set()
+                    for (rbi, rt, cls, rt_) in reads:
+                        if rt == tbl and cls and cls[0] == name and rbi in after and rbi in reach:
+                            late.append((wbi, rbi))
+                if late:
+                    res.bad("C01.f", inst, "in the %s arm `%s` is read at an operand register after `%s[inst.out]` was stored in the same iteration: when the output register is one of the operands (register reuse) the new value is read instead of the operand" % (name, nm, nm), where(b, late[0][1]),
+                            key=kbase + "|order")
+                    continue
+                # f.dep (Xor, Not): the stored value is computed from the operand reads
+                if name in ("Xor", "Not"):
+                    okdep = True
+                    for (wbi, wt, t) in wr:
+                        if wt != tbl:
+                            continue
+                        ptr = t["d"]["l"]
+                        stored = []
+                        for bj in reach:
+                            for st in b.blocks[bj]["s"]:
+                                if st["k"] == "assign" and st["p"]["l"] == ptr and st["p"]["pr"]:
+                                    r = st["r"]
+                                    for o in [r.get("o"), r.get("a"), r.get("b")] + list(r.get("ops") or []):
+                                        if o and o["k"] != "const":
+                                            stored.append(o["p"]["l"])
+                        # body-local backward closure over the arm's definitions
+                        seen = set(stored)
+                        work = list(stored)
+                        while work:
+                            l = work.pop()
+                            for (dbi, si, r) in defs_of(b, l):
+                                if dbi not in reach:
+                                    continue
+                                if si == "t":
+                                    srcs = [a for a in r["args"] if a["k"] != "const"]
+                                else:
+                                    srcs = [o for o in [r.get("o"), r.get("a"), r.get("b")] + list(r.get("ops") or []) if o and o["k"] != "const"]
+                                    if r["k"] in ("ref", "discr", "len") and r.get("p"):
+                                        srcs.append({"k": "copy", "p": r["p"]})
+                                for o in srcs:
+                                    if o["p"]["l"] not in seen:
+                                        seen.add(o["p"]["l"])
+                                        work.append(o["p"]["l"])
+                        for i in range(ar):
+                            if not any(rt_["d"]["l"] in seen for (rbi, rt_) in got[i]):
+                                okdep = False
+                    if not okdep:
+                        res.bad("C01.f", inst, "the value stored into `%s[inst.out]` by the %s arm is not computed from the reads of `%s` at every operand" % (nm, name, nm), where(b, tm[v]), key=kbase + "|dep")
+                        continue
+                res.ok("C01.f", inst, where(b, tm[v]), "store at inst.out; reads `%s` at %s before the store%s" % (nm, " and ".join("xy"[:ar]), "; stored value computed from them" if name in ("Xor", "Not") else ""))
+    res.need("C01.f", "walkers_with_register_tables", n_w, 4, "instruction walks that store into register-indexed tables (init_and_shares, garble x2, evaluate)")
+    res.need("C01.f", "op_arm_table_pairs", n_arm, 15, "(Op arm, register table) pairs with a store at inst.out")
